@@ -155,7 +155,7 @@ def run(ctx):
             try:
                 programs.evaluate(T, spec, cls, container, nontrivial, n)
             except programs.Degenerate:
-                ctx.count("degenerate programs skipped (zero after floor division)")
+                ctx.count("degenerate programs skipped (zero after floor division or magnitude outside 1e+-120)")
                 continue
             except programs.EvalError as e:
                 ctx.ev()
@@ -167,6 +167,8 @@ def run(ctx):
                 ck.cls = "%s/%s" % (cls, container)
                 try:
                     _metamorphic(ctx, ck, T, sa, sb, cls, container)
+                except programs.Degenerate:
+                    ctx.count("degenerate programs skipped (zero after floor division or magnitude outside 1e+-120)")
                 except Exception as e:
                     ctx.ev()
                     ck.root = ("*", sa, sb)
@@ -174,9 +176,12 @@ def run(ctx):
         # Quantity ** n equals n-fold product
         for _ in range(200):
             spec = B.tree(r, 2, 1)
-            a, ma = programs.evaluate(T, spec, "scalar", "list", lambda *x: None)
+            try:
+                a, ma = programs.evaluate(T, spec, "scalar", "list", lambda *x: None)
+            except programs.Degenerate:
+                continue
             q = a.GetQuantity()
-            for k in (1, 2, 3):
+            for k in (1, 2, 3, 4, 5, 8):
                 ctx.ev()
                 want = q
                 for _j in range(k - 1):
